@@ -18,7 +18,10 @@ The code has two phases per write, and only the second touches what the listers 
 `Sys σ` is that structure for any state `σ` (the records of a collection, the record list of waste): the committed
 state and the calls that are inside their verdict phase, each with its verdict and with what it will do to the state
 when it commits.  Events: a call enters (`begin`), a call leaves (`finish i`: commits if accepted, vanishes if
-refused); List calls read `st` at any point in between.
+refused); List calls read `st` at any point in between and keep nothing from one call to the next.  Two results:
+refused calls are invisible at every point (`refused_invisible`), and accepted calls take effect exactly once, when
+they finish, in finishing order (`run_st_commits`) — a listing taken while a write waits in its callback is the
+listing before that write, and no List call after the write returned can still answer with it.
 -/
 namespace ScVerif.C15
 
